@@ -5,6 +5,7 @@
   (Account views, arithmetic and validation lemmas are in `RigoProofs.TxBasic`.)
 -/
 import RigoProofs.TxBasic
+import RigoProofs.TxRecv
 open Std
 
 namespace Rigo
@@ -178,14 +179,14 @@ theorem runTrx_evm {s : St} {exec : Bool} {ht : Int} {tx : TxIn} {recv : Account
 
 /-! ### inversion of `handleTx` -/
 
-theorem handleTx_ok_inv {s : St} {exec : Bool} {h : Int} {tx : TxIn} (hc : (handleTx s exec h tx).2.code = 0) :
+theorem handleTxOld_ok_inv {s : St} {exec : Bool} {h : Int} {tx : TxIn} (hc : (handleTxOld s exec h tx).2.code = 0) :
     tx.decodable = true ∧ ∃ sender s1 s2 g,
       s.findAcct exec tx.from_ = some sender ∧
       validateTrx (s.findOrNewAcct exec tx.to).1 exec h tx sender (s.findOrNewAcct exec tx.to).2 = .ok s1 ∧
       runTrx s1 exec h tx (s.findOrNewAcct exec tx.to).2 = .ok (s2, g, none) ∧
-      handleTx s exec h tx = (s2, { code := 0, kind := "ok", gasUsed := g, gasWanted := tx.gas }) := by
+      handleTxOld s exec h tx = (s2, { code := 0, kind := "ok", gasUsed := g, gasWanted := tx.gas }) := by
   have fc : (if exec = true then 5 else 3 : Nat) ≠ 0 := by split <;> decide
-  unfold handleTx at hc ⊢
+  unfold handleTxOld at hc ⊢
   simp only at hc ⊢
   split at hc
   · exact absurd hc fc
@@ -204,15 +205,25 @@ theorem handleTx_ok_inv {s : St} {exec : Bool} {h : Int} {tx : TxIn} (hc : (hand
   refine ⟨by simpa using hd, sender, s1, s2, g, hs, hv, hr, ?_⟩
   simp [hd]
 
-/-- the possible states after a failed `handleTx` -/
-theorem handleTx_fail_inv {s : St} {exec : Bool} {h : Int} {tx : TxIn} (hc : (handleTx s exec h tx).2.code ≠ 0) :
-    (handleTx s exec h tx).1 = s ∨ (handleTx s exec h tx).1 = (s.findOrNewAcct exec tx.to).1 ∨
+theorem handleTx_ok_inv {s : St} {exec : Bool} {h : Int} {tx : TxIn} (hc : (handleTx s exec h tx).2.code = 0) :
+    tx.decodable = true ∧ ∃ sender s1 s2 g,
+      s.findAcct exec tx.from_ = some sender ∧
+      validateTrx (s.findOrNewAcct exec tx.to).1 exec h tx sender (s.findOrNewAcct exec tx.to).2 = .ok s1 ∧
+      runTrx s1 exec h tx (s.findOrNewAcct exec tx.to).2 = .ok (s2, g, none) ∧
+      handleTx s exec h tx = (s2, { code := 0, kind := "ok", gasUsed := g, gasWanted := tx.gas }) := by
+  have hl := handleTx_ok_len hc
+  rw [handleTx_goodlen hl] at hc ⊢
+  exact handleTxOld_ok_inv hc
+
+/-- the possible states after a failed `handleTxOld` -/
+theorem handleTxOld_fail_inv {s : St} {exec : Bool} {h : Int} {tx : TxIn} (hc : (handleTxOld s exec h tx).2.code ≠ 0) :
+    (handleTxOld s exec h tx).1 = s ∨ (handleTxOld s exec h tx).1 = (s.findOrNewAcct exec tx.to).1 ∨
     ∃ sender s1, s.findAcct exec tx.from_ = some sender ∧
       validateTrx (s.findOrNewAcct exec tx.to).1 exec h tx sender (s.findOrNewAcct exec tx.to).2 = .ok s1 ∧
-      ((∃ e, runTrx s1 exec h tx (s.findOrNewAcct exec tx.to).2 = .error e ∧ (handleTx s exec h tx).1 = s1) ∨
+      ((∃ e, runTrx s1 exec h tx (s.findOrNewAcct exec tx.to).2 = .error e ∧ (handleTxOld s exec h tx).1 = s1) ∨
        (∃ s2 g k, runTrx s1 exec h tx (s.findOrNewAcct exec tx.to).2 = .ok (s2, g, some k) ∧
-          (handleTx s exec h tx).1 = s2)) := by
-  unfold handleTx at hc ⊢
+          (handleTxOld s exec h tx).1 = s2)) := by
+  unfold handleTxOld at hc ⊢
   simp only at hc ⊢
   split
   · exact Or.inl rfl
@@ -230,6 +241,19 @@ theorem handleTx_fail_inv {s : St} {exec : Bool} {h : Int} {tx : TxIn} (hc : (ha
   · rename_i s2 g k hr; exact Or.inr ⟨s2, g, k, hr, rfl⟩
   · rename_i s2 g hr
     simp [hd, hs, hv, hr] at hc
+
+/-- the possible states after a failed `handleTx` (a receiver of a wrong length: the first case) -/
+theorem handleTx_fail_inv {s : St} {exec : Bool} {h : Int} {tx : TxIn} (hc : (handleTx s exec h tx).2.code ≠ 0) :
+    (handleTx s exec h tx).1 = s ∨ (handleTx s exec h tx).1 = (s.findOrNewAcct exec tx.to).1 ∨
+    ∃ sender s1, s.findAcct exec tx.from_ = some sender ∧
+      validateTrx (s.findOrNewAcct exec tx.to).1 exec h tx sender (s.findOrNewAcct exec tx.to).2 = .ok s1 ∧
+      ((∃ e, runTrx s1 exec h tx (s.findOrNewAcct exec tx.to).2 = .error e ∧ (handleTx s exec h tx).1 = s1) ∨
+       (∃ s2 g k, runTrx s1 exec h tx (s.findOrNewAcct exec tx.to).2 = .ok (s2, g, some k) ∧
+          (handleTx s exec h tx).1 = s2)) := by
+  by_cases hl : byteLen tx.to = 20
+  · rw [handleTx_goodlen hl] at hc ⊢
+    exact handleTxOld_fail_inv hc
+  · exact Or.inl (handleTx_badlen_fst hl)
 
 
 /-! ### frames: what a transaction can change at all -/
